@@ -34,6 +34,7 @@ import (
 	"github.com/mimiro-io/datahub/internal/conf"
 	"github.com/mimiro-io/datahub/internal/jobs/source"
 	"github.com/mimiro-io/datahub/internal/server"
+	"github.com/mimiro-io/datahub/internal/verifhook"
 )
 
 // The Scheduler deals with reading and writing jobs and making sure they get added to the
@@ -191,6 +192,7 @@ func (s *Scheduler) AddJob(jobConfig *JobConfiguration) error {
 	g, _ := errgroup.WithContext(context.Background())
 	g.Go(func() error {
 		// make sure we clear up before adding
+		verifhook.Access(s.Runner, "runner.scheduledJobs", true)
 		clearCrontab(s.Runner.scheduledJobs, jobConfig.ID)
 		s.Runner.eventBus.UnsubscribeToDataset(jobConfig.ID)
 		for _, job := range triggeredJobs {
@@ -304,6 +306,7 @@ func (s *Scheduler) Parse(rawJSON []byte) (*JobConfiguration, error) {
 // GetScheduleEntries returns a cron list of all scheduled entries currently scheduled.
 // Paused jobs are not part of this list
 func (s *Scheduler) GetScheduleEntries() ScheduleEntries {
+	verifhook.Access(s.Runner, "runner.scheduledJobs", false)
 	jobs := s.Runner.scheduledJobs
 	lookup := map[int]string{}
 	for k, v := range jobs {
